@@ -98,6 +98,12 @@ func applySchema(data json.RawMessage, resolved *jsonschema.Resolved, forOutput 
 			if err := internaljson.Unmarshal(data, &v); err != nil {
 				return nil, fmt.Errorf("unmarshaling arguments: %w", err)
 			}
+			if v == nil {
+				// "arguments": null stands for no arguments, like an absent
+				// member: defaults are applied to an empty object (a nil map
+				// cannot take them).
+				v = make(map[string]any)
+			}
 		}
 		unmarshaled = v
 	} else {
